@@ -483,6 +483,131 @@ def kind_cases(rng, ops, n):
     return cases
 
 
+def sweep(ck, work, rng, stats, per_op, families):
+    """The independent generated calls of `work` (operators, in order): oracle + correspondence."""
+    known_keys = _known_keys()
+    made: dict = collections.defaultdict(list)  # calls already made in this process, per operator
+
+    def one_case(op, reqs, pending):
+        call = L.gen_call(rng, op)
+        if "skip" in call:
+            per_op[op.key]["skipped"] += 1
+            stats["skipped:" + call["skip"]] += 1
+            return
+        families[call["family"]] += 1
+        sp = L.run_spox(op, call)
+        key, what, info = judge(op, call, sp)
+        per_op[op.key][info["class"]] += 1
+        ck.count((op.key, info["class"], call["family"], len(call["attrs"]), tuple(type(a).__name__ for a in call["args"])))
+        if key is not None:
+            if key in known_keys:
+                ck.failure(key, what, {"op_key": op.key, "call": call})
+            elif not any(f["key"] == key for f in ck.failures):
+                register(ck, op, key, what, call, made[op.key])
+        else:
+            ck.sample({"op": op.key, "call": call, "verdict": info["class"]}, limit=4)
+        if "skip" not in call and len(made[op.key]) < 60:
+            made[op.key].append(call)
+        for oe in sp.get("obs_errors", []):
+            brk(ck, "correspondence", "not observable: " + oe.split(":")[0], oe)
+        try:
+            req = L.model_request(op, call, sp)
+        except Exception as e:  # noqa: BLE001
+            stats["not_observable"] += 1
+            brk(ck, "correspondence", "constructor call not observable (model request)", f"{type(e).__name__}: {e}"[:300])
+            return
+        if req is None:
+            stats["no_node_observed"] += 1
+            if sp["raised"] is None:  # (a constructor may raise before it creates the node)
+                brk(ck, "correspondence", "no node object observed for a call", f"e.g. {op.key}: {sp['raised']}: {sp.get('msg')}"[:300])
+            return
+        reqs.append(req)
+        pending.append((op, call, sp))
+
+    CH = 3000
+    sent = 0
+    for lo in range(0, len(work), CH):
+        reqs, pending = [], []
+        for op in work[lo:lo + CH]:
+            try:
+                one_case(op, reqs, pending)
+            except Exception as e:  # noqa: BLE001  (never crash the sweep; the verdicts of other cases stand)
+                stats["case_errors"] += 1
+                brk(ck, "harness", "a generated call could not be run", f"e.g. {op.key}: {type(e).__name__}: {e}"[:300])
+        answers = ck.driver().ask_many("C05", reqs) if reqs else []
+        sent += len(reqs)
+        if len(answers) != len(reqs):
+            brk(ck, "correspondence", "driver", f"{len(answers)} answers for {len(reqs)} requests")
+        for (op, call, sp), ans in zip(pending, answers):
+            correspond_case(ck, op, call, sp, ans, stats)
+        if ck.thorough and (lo // CH) % 10 == 9:
+            ck.log(f"... {lo + CH} calls")
+        if len(ck.broken_items) >= MAX_BROKEN and len(ck.failures) >= 5:
+            ck.log("many mismatches and failures already - stopping the sweep early")
+            break
+    return sent
+
+
+
+N_SLICES = 32  # fixed, so that the cases of a seed do not depend on the number of CPUs
+
+
+def _sweep_worker(args):
+    """One slice of the thorough sweep in a forked worker: returns plain data, never raises."""
+    seed, idx, keys = args
+    try:
+        ck = core.Check("C05", "thorough", seed)
+        by_key = {o.key: o for o in L.load_vocabulary()}
+        work = [by_key[k] for k in keys]
+        rng = random.Random(f"C05-{seed}-{idx}")
+        stats, families = collections.Counter(), collections.Counter()
+        per_op = collections.defaultdict(collections.Counter)
+        sent = sweep(ck, work, rng, stats, per_op, families)
+        if ck._driver:
+            ck._driver.close()
+        return {"idx": idx, "sent": sent, "stats": dict(stats), "families": dict(families),
+                "per_op": {k: dict(v) for k, v in per_op.items()}, "failures": ck.failures,
+                "known": ck.known_hits, "broken": ck.broken_items, "evaluations": ck.evaluations,
+                "distinct": list(ck._distinct), "suppressed": _suppressed[0]}
+    except BaseException as e:  # noqa: BLE001
+        return {"idx": idx, "error": f"{type(e).__name__}: {e}"[:300]}
+
+
+def parallel_sweep(ck, work, stats, per_op, families):
+    import multiprocessing as mp
+    import os
+
+    ck.driver()  # build the model executable once, before forking
+    slices = [[o.key for o in work[i::N_SLICES]] for i in range(N_SLICES)]
+    nproc = max(1, min(16, os.cpu_count() or 1, N_SLICES))
+    sent = 0
+    try:
+        with mp.get_context("fork").Pool(nproc) as pool:
+            results = pool.map(_sweep_worker, [(ck.seed, i, sl) for i, sl in enumerate(slices)], chunksize=1)
+    except Exception as e:  # noqa: BLE001
+        brk(ck, "harness", "worker pool failed; sweep run in-process", f"{type(e).__name__}: {e}"[:300])
+        return sweep(ck, work, ck.rng, stats, per_op, families)
+    for r in sorted(results, key=lambda r: r["idx"]):
+        if "error" in r:
+            brk(ck, "harness", "a sweep worker failed", f"slice {r['idx']}: {r['error']}")
+            continue
+        sent += r["sent"]
+        stats.update(r["stats"])
+        families.update(r["families"])
+        for k, v in r["per_op"].items():
+            per_op[k].update(v)
+        for f in r["failures"]:
+            ck.failure(f["key"], f["what"], f["case"])
+        for h in r["known"]:
+            ck.failure(h["key"], h["what"], h["case"])
+        for b in r["broken"]:
+            brk(ck, b["kind"], b["name"], b["detail"])
+        ck.evaluations += r["evaluations"]
+        ck._distinct.update(tuple(x) if isinstance(x, list) else x for x in r["distinct"])
+        _suppressed[0] += r["suppressed"]
+    return sent
+
+
 # ----------------------------------------------------------------------------------- run
 def _budget(ck, op):
     if op.name in L.SUBGRAPH_OPS:
@@ -622,67 +747,11 @@ def run(ck: core.Check):
     for op in ops:
         for _ in range(_budget(ck, op)):
             work.append(op)
-    known_keys = _known_keys()
-    made: dict = collections.defaultdict(list)  # calls already made in this process, per operator
-
-    def one_case(op, reqs, pending):
-        call = L.gen_call(rng, op)
-        if "skip" in call:
-            per_op[op.key]["skipped"] += 1
-            stats["skipped:" + call["skip"]] += 1
-            return
-        families[call["family"]] += 1
-        sp = L.run_spox(op, call)
-        key, what, info = judge(op, call, sp)
-        per_op[op.key][info["class"]] += 1
-        ck.count((op.key, info["class"], call["family"], len(call["attrs"]), tuple(type(a).__name__ for a in call["args"])))
-        if key is not None:
-            if key in known_keys:
-                ck.failure(key, what, {"op_key": op.key, "call": call})
-            elif not any(f["key"] == key for f in ck.failures):
-                register(ck, op, key, what, call, made[op.key])
-        else:
-            ck.sample({"op": op.key, "call": call, "verdict": info["class"]}, limit=4)
-        if "skip" not in call and len(made[op.key]) < 60:
-            made[op.key].append(call)
-        for oe in sp.get("obs_errors", []):
-            brk(ck, "correspondence", "not observable: " + oe.split(":")[0], oe)
-        try:
-            req = L.model_request(op, call, sp)
-        except Exception as e:  # noqa: BLE001
-            stats["not_observable"] += 1
-            brk(ck, "correspondence", "constructor call not observable (model request)", f"{type(e).__name__}: {e}"[:300])
-            return
-        if req is None:
-            stats["no_node_observed"] += 1
-            if sp["raised"] is None:  # (a constructor may raise before it creates the node)
-                brk(ck, "correspondence", "no node object observed for a call", f"e.g. {op.key}: {sp['raised']}: {sp.get('msg')}"[:300])
-            return
-        reqs.append(req)
-        pending.append((op, call, sp))
-
-    rng.shuffle(work)  # a chunk mixes operators; order is still a function of the seed
-    CH = 3000
-    sent = 0
-    for lo in range(0, len(work), CH):
-        reqs, pending = [], []
-        for op in work[lo:lo + CH]:
-            try:
-                one_case(op, reqs, pending)
-            except Exception as e:  # noqa: BLE001  (never crash the sweep; the verdicts of other cases stand)
-                stats["case_errors"] += 1
-                brk(ck, "harness", "a generated call could not be run", f"e.g. {op.key}: {type(e).__name__}: {e}"[:300])
-        answers = ck.driver().ask_many("C05", reqs) if reqs else []
-        sent += len(reqs)
-        if len(answers) != len(reqs):
-            brk(ck, "correspondence", "driver", f"{len(answers)} answers for {len(reqs)} requests")
-        for (op, call, sp), ans in zip(pending, answers):
-            correspond_case(ck, op, call, sp, ans, stats)
-        if ck.thorough and (lo // CH) % 10 == 9:
-            ck.log(f"... {lo + CH} calls")
-        if len(ck.broken_items) >= MAX_BROKEN and len(ck.failures) >= 5:
-            ck.log("many mismatches and failures already - stopping the sweep early")
-            break
+    rng.shuffle(work)  # a slice mixes operators; order is still a function of the seed
+    if not ck.thorough:
+        sent = sweep(ck, work, rng, stats, per_op, families)
+    else:
+        sent = parallel_sweep(ck, work, stats, per_op, families)
     ck.log(f"{len(work)} calls generated, {sent} sent to the model")
 
     # 2. kind checks of Inputs(...)
